@@ -102,6 +102,7 @@ func seqProfile(prop string, g *Gen, cfg *Config, rng *SplitMix) (steps int) {
 		}
 		steps = 8 + rng.Intn(10)
 	case "C20":
+		g.RepeatPct = 35
 		g.W["file"] = 18
 		g.W["set"] = 35
 		g.W["compact"] = 6
@@ -111,6 +112,7 @@ func seqProfile(prop string, g *Gen, cfg *Config, rng *SplitMix) (steps int) {
 			cfg.ShortReadDen = 3
 		}
 	case "C05":
+		g.RepeatPct = 25
 		g.W["compact"] = 12
 		g.Text = "unicode"
 	case "C12":
@@ -138,6 +140,14 @@ func runSeqGenerated(bin, prop string, seed uint64) *RunReport {
 	r := NewRun(bin, sc)
 	defer r.Close()
 	r.InitStore()
+	if prop == "C20" || prop == "C05" && rng.Chance(1, 2) {
+		// the agent's work products exist before they are attached
+		for _, f := range goodFiles {
+			st := Step{File: &FileOp{Path: f, Kind: "file", Content: "result " + f + "\n"}}
+			sc.Steps = append(sc.Steps, st)
+			r.ExecStep(st)
+		}
+	}
 	if (prop == "C15" || prop == "C08") && rng.Chance(2, 3) {
 		for _, st := range g.twoLevelPrelude() {
 			sc.Steps = append(sc.Steps, st)
